@@ -21,7 +21,6 @@ new defect that needs no overlap is never hidden behind a known one.
 from __future__ import annotations
 
 import itertools
-import logging
 
 from wdmc import explore as ex
 from wdmc import procsim, vsched, wd
@@ -143,6 +142,9 @@ def observed_trick_class():
                 s.log.append(("rs_enter", role(me), me.tid))
                 try:
                     return super()._restart_process()
+                except Exception as e:  # noqa: BLE001 - ProcessWatcher.run swallows (and only logs) what its callback raises
+                    s.log.append(("rs_exc", role(me), type(e).__name__, str(e)[:200]))
+                    raise
                 finally:
                     if not s.aborting:
                         s.log.append(("rs_exit", role(me), me.tid))
@@ -175,15 +177,6 @@ def helpers_alive(s):
                 r = "superseded ProcessWatcher"
             out.append((r, bool(getattr(ev, "_flag", False))))
     return sorted(out)
-
-
-class _LogHandler(logging.Handler):
-    def emit(self, record):
-        s = vsched.S
-        if s is not None and s.active:
-            et = record.exc_info[0].__name__ if record.exc_info and record.exc_info[0] else None
-            s.log.append(("liberror", record.name, record.getMessage()[:200], et,
-                          str(record.exc_info[1])[:200] if et else None))
 
 
 def _notify_between(log, lo, hi, default):
@@ -228,6 +221,8 @@ class C18Harness(ex.Harness):
                     fp = f"{fam}: deadlock " + " / ".join(where)
                 out.append(dict(kind="deadlock", fp=fp, msg=f"deadlock: {info}; program={self.name}; log={log}"))
             elif kind == "horizon":
+                if any(e[0] == "runaway" for e in log):
+                    horizon_fp = f"{fam}: runaway - more child processes spawned than any trigger count allows"
                 out.append(dict(kind="horizon", fp=horizon_fp or f"{fam}: step/time horizon exceeded",
                                 msg=f"horizon exceeded: {info}; program={self.name}; log={log[-40:]}"))
         for name, et, msg, funcs in res.errors:
@@ -235,10 +230,12 @@ class C18Harness(ex.Harness):
             out.append(dict(kind="thread-error", fp=(ctx + "exception in a trick call or helper thread") if ctx else f"{fam}: thread died with {et} in {top}",
                             msg=f"thread {name} died: {et}: {msg} at {funcs[-5:]}; program={self.name}; log={log}"))
         for e in log:
-            if e[0] == "liberror":
-                out.append(dict(kind="lib-error", fp=(ctx + "exception in a trick call or helper thread") if ctx
-                                else f"{fam}: exception logged by {e[1].rsplit('.', 1)[-1]} ({e[3]}: {e[4]})",
-                                msg=f"{e[1]}: {e[2]}: {e[3]}: {e[4]}; program={self.name}; log={log}"))
+            if e[0] == "rs_exc" and e[1] in ("ProcessWatcher", "EventDebouncer"):
+                out.append(dict(kind="callback-raised",
+                                fp=(ctx + "exception in a trick call or helper thread") if ctx
+                                else f"{fam}: restart callback of the {e[1]} thread raised {e[2]} ({e[3][:60]})",
+                                msg=f"_restart_process() called by the {e[1]} thread raised {e[2]}: {e[3]}; "
+                                    f"program={self.name}; log={log}"))
             elif e[0] == "exc":
                 out.append(dict(kind="call-raised", fp=(ctx + "exception in a trick call or helper thread") if ctx
                                 else f"{fam}: {e[1]} raised {e[2]} ({e[3][:60]})",
@@ -445,12 +442,13 @@ DEB = 0.2          # debounce interval of family (b): a batch of an event at t f
 KA = 0.5           # kill_after: two poll rounds of 0.25 before SIGKILL
 HORIZON = 1.6      # virtual seconds after start at which a quiescence-mode program is inspected (all activity ends by 1.4)
 MARGIN = 0.3
+MAX_CHILDREN = 12  # runaway guard of (b): no program has more than 5 triggers
 AFTER = 1.0        # virtual seconds the program is observed after stop() returned
 
 
 class ARHarness(C18Harness):
     family = "autorestart"
-    sched_kwargs = dict(max_steps=30000, switch_cost=1, timer_deviations=False)
+    sched_kwargs = dict(max_steps=12000, switch_cost=1, timer_deviations=False)
 
     def __init__(self, *, roce, deb, life, ign, gaps, mode, ka=KA):
         self.roce, self.deb, self.life, self.ign = roce, deb, tuple(life), bool(ign)
@@ -464,7 +462,7 @@ class ARHarness(C18Harness):
         events = wd.mod("watchdog.events")
         T = vsched.vthreading.Thread
         L = s.log.append
-        tab = procsim.Table(s, s.log, lifetimes=self.life, ignores=(self.ign,), role=role)
+        tab = procsim.Table(s, s.log, lifetimes=self.life, ignores=(self.ign,), role=role, max_children=MAX_CHILDREN)
         s.env["proctable"] = tab
         trick = observed_trick_class()(["srv", "--run"], patterns=["*.py"], kill_after=self.ka,
                                         debounce_interval_seconds=self.deb, restart_on_command_exit=self.roce)
@@ -722,7 +720,8 @@ class SCHarness(C18Harness):
         events = wd.mod("watchdog.events")
         T = vsched.vthreading.Thread
         L = s.log.append
-        tab = procsim.Table(s, s.log, lifetimes=self.durs, ignores=(False,), role=role)
+        tab = procsim.Table(s, s.log, lifetimes=self.durs, ignores=(False,), role=role,
+                            max_children=len(self.gaps) + 3)
         s.env["proctable"] = tab
         trick = tricks.ShellCommandTrick("run ${watch_src_path}", patterns=["*.py"],
                                          wait_for_process=self.wait, drop_during_process=self.drop)
@@ -826,11 +825,6 @@ def setup(tier):
     seam = procsim.install(tricks)
     # the trick creates its debouncer itself: give it the observed subclass (same code objects)
     tricks.EventDebouncer = logged_debouncer_class()
-    for m in (pwm, tricks, edm):
-        lg = getattr(m, "logger", None)
-        if lg is not None and not any(isinstance(h, _LogHandler) for h in lg.handlers):
-            lg.addHandler(_LogHandler())
-            lg.propagate = False
     D = edm.EventDebouncer
     A = tricks.AutoRestartTrick
     Sh = tricks.ShellCommandTrick
